@@ -32,6 +32,8 @@ def args_of(argv):
 
 def base_corpus(tier, seed):
     defs = corpus.shape_corpus()
+    if tier == "quick":      # byte-table boundary shapes: the quick tier keeps the boundaries 00, 7F, 80 and FF
+        defs = [d for d in defs if not d["id"].startswith("btab_") or d["id"][-2:] in ("00", "7f", "80", "ff")]
     n = 40 if tier == "quick" else 600
     defs += corpus.random_corpus(seed, n)
     defs += corpus.class_shape_corpus(tier, seed)
